@@ -30,6 +30,13 @@ type obs struct {
 	ClientRaw     []byte
 	ClientEOF     bool // the proxy ended the connection towards the client (EOF or error on read)
 
+	// idle scenario (plan.IdleAt > 0)
+	IdleReached    bool          // the client got to the pause (every earlier request answered or connection over)
+	EOFAtResume    bool          // the client had seen the end of the proxy connection when the pause was over
+	OriginIdleAt   time.Duration // virtual time at which the origin closed its idle connection (0 = never)
+	ClientEOFAt    time.Duration // virtual time at which the client saw the end of the proxy connection
+	WroteAfterIdle int           // bytes of request #IdleAt the transport still accepted after the pause
+
 	Got100       map[int]bool // request index -> an interim response had arrived before the body was sent
 	ExpectWaited int
 	Stuck        bool // the watchdog had to tear the case down
@@ -170,6 +177,7 @@ func execute(t *testing.T, p *plan) *obs {
 	o := &obs{Got100: map[int]bool{}}
 	synctest.Test(t, func(t *testing.T) {
 		var mu sync.Mutex // guards o
+		t0 := time.Now()
 		server := newServer(p)
 		cc, sc := bpair(p.T.CapC2P, p.T.PlanC2P, p.T.CapP2C, nil)
 		var (
@@ -197,7 +205,7 @@ func execute(t *testing.T, p *plan) *obs {
 			originsMu.Lock()
 			origins = append(origins, oc, os)
 			originsMu.Unlock()
-			wg.Go(func() { runOrigin(p, o, &mu, os) })
+			wg.Go(func() { runOrigin(p, o, &mu, os, t0) })
 			pc, err := creq.PendingConn.Proceed()
 			if err != nil {
 				mu.Lock()
@@ -252,6 +260,7 @@ func execute(t *testing.T, p *plan) *obs {
 			}
 			mu.Lock()
 			o.ClientEOF = true
+			o.ClientEOFAt = time.Since(t0)
 			mu.Unlock()
 			prog.update(func() { prog.done = true })
 		})
@@ -266,6 +275,27 @@ func execute(t *testing.T, p *plan) *obs {
 			}()
 			for i := range p.Reqs {
 				r := &p.Reqs[i]
+				if p.IdleAt > 0 && i == p.IdleAt {
+					// idle phase: nothing outstanding, nothing sent for idlePause
+					prog.waitFor(func() bool { return prog.finals >= i }, 0)
+					time.Sleep(idlePause)
+					prog.mu.Lock()
+					eof := prog.done
+					prog.mu.Unlock()
+					mu.Lock()
+					o.IdleReached, o.EOFAtResume = true, eof
+					mu.Unlock()
+					// a client that has not noticed anything sends its next request now
+					before := fw.total
+					head, body := r.wire()
+					if _, err := fw.write(head); err == nil {
+						fw.write(body)
+					}
+					mu.Lock()
+					o.WroteAfterIdle = fw.total - before
+					mu.Unlock()
+					continue
+				}
 				need := i + 1 - p.Window
 				if need > 0 && !prog.waitFor(func() bool { return prog.finals >= need }, 0) {
 					// the connection ended while requests were outstanding
@@ -335,11 +365,20 @@ func proxyGenerated(m *msg) bool {
 }
 
 // runOrigin plays the origin server on one upstream connection.
-func runOrigin(p *plan, o *obs, mu *sync.Mutex, bc *bconn) {
+func runOrigin(p *plan, o *obs, mu *sync.Mutex, bc *bconn, t0 time.Time) {
 	defer bc.Close()
 	// like a real server the origin gives up on a connection on which nothing moves for a minute
 	// (fake time): it may be blocked writing to a peer that does not read, or waiting for a body
-	c := &idleConn{c: bc, t: time.AfterFunc(originIdle, func() { bc.Close() })}
+	idle := p.originIdle()
+	c := &idleConn{c: bc, d: idle}
+	c.t = time.AfterFunc(idle, func() {
+		mu.Lock()
+		if o.OriginIdleAt == 0 {
+			o.OriginIdleAt = time.Since(t0)
+		}
+		mu.Unlock()
+		bc.Close()
+	})
 	defer c.t.Stop()
 	br := bufio.NewReaderSize(recReader{c, &o.OriginRaw, mu}, 4096)
 	fw := &fragWriter{w: c, sizes: p.T.WriteO, limit: -1}
@@ -347,7 +386,9 @@ func runOrigin(p *plan, o *obs, mu *sync.Mutex, bc *bconn) {
 		m, err := readHead(br, false)
 		if err != nil {
 			mu.Lock()
-			if err != io.EOF {
+			// io.ErrClosedPipe before the first byte of a message: the origin's own idle timeout
+			// closed the connection between two messages - as clean as EOF
+			if err != io.EOF && !(m == nil && err == io.ErrClosedPipe) {
 				o.OriginTail, o.OriginTailErr = m, err.Error()
 			}
 			mu.Unlock()
@@ -414,21 +455,20 @@ func (p *respPlan) truncPoint(reqMethod string) int {
 	return p.TruncateAt % len(p.finalWire(reqMethod))
 }
 
-const originIdle = time.Minute
-
 type idleConn struct {
 	c *bconn
 	t *time.Timer
+	d time.Duration
 }
 
 func (i *idleConn) Read(b []byte) (int, error) {
 	n, err := i.c.Read(b)
-	i.t.Reset(originIdle)
+	i.t.Reset(i.d)
 	return n, err
 }
 
 func (i *idleConn) Write(b []byte) (int, error) {
 	n, err := i.c.Write(b)
-	i.t.Reset(originIdle)
+	i.t.Reset(i.d)
 	return n, err
 }
